@@ -41,6 +41,11 @@ def _check_written(t, a, sig, **kw):
 def h_layout(nr, nc, zeros):
     md = pick(['none', 'both'], 'md')
     t, a = make_table(nr, nc, md=md, zeros=zeros, type_=pick(['OTU table', None], 'type'), late_zero=True)
+    if md == 'both' and flag('category-names-with-slashes'):
+        for ax in ('observation', 'sample'):
+            t.add_metadata({i: {'barcode/seq': 'ACGT', 'flow mL/min/m2': 1.5 + k} for k, i in enumerate(a.ids(ax))}, axis=ax)
+            for k in range(len(a.ids(ax))):
+                a.md(ax)[k].update({'barcode/seq': 'ACGT', 'flow mL/min/m2': 1.5 + k})
     accessed = pick(['fresh', 'nnz-read', 'written-before'], 'history')
     if accessed == 'nnz-read':
         t.nnz
